@@ -28,6 +28,14 @@ SCHEMAS = [
     O({"f%d" % i: I() for i in range(10)}, required=["f0", "f7", "f8", "f9"]),
     O({"f%d" % i: dict(type="boolean") for i in range(18)}, required=["f0", "f8", "f15", "f16", "f17"]),
     O({"n": S(minLength=1, nullable=True), "m": A(S(minLength=1), minItems=1)}, required=["n"]),
+    # required AND nullable members without further validation (presence is decided by the required mask alone), also in the second mask byte
+    O({"r": I(nullable=True), "k": I(), "s": S(nullable=True)}, required=["r", "s"]),
+    O(dict([("g%d" % i, I()) for i in range(9)] + [("rn", I(nullable=True)), ("sn", S(nullable=True))]), required=["g0", "rn", "sn"]),
+    # arrays of objects whose members are optional / nullable (element state must not leak between elements)
+    A(O({"a": I(), "b": S(maxLength=2), "c": I(nullable=True)}, required=["a"]), maxItems=3),
+    O({"items": A(O({"p": S(), "q": A(I())}, required=[])), "t": I()}, required=["items"]),
+    # uniqueItems combined with length bounds
+    A(I(), uniqueItems=True, maxItems=3, minItems=1),
 ]
 
 def yaml_schema(s, ind):
